@@ -54,6 +54,9 @@ pub struct NodeV<D> {
     pub data: D,
     pub ledges: Vec<EdgeV>,
     pub redges: Vec<EdgeV>,
+    /// what the convenience accessors `Node::l_edges()` / `Node::r_edges()` report
+    pub ledges_acc: Vec<EdgeV>,
+    pub redges_acc: Vec<EdgeV>,
 }
 impl<D> NodeV<D> {
     pub fn edges(&self, s: Side) -> &Vec<EdgeV> {
@@ -95,6 +98,8 @@ pub fn view<K: Kmer, D: Debug + Clone>(g: &DebruijnGraph<K, D>) -> GraphV<D> {
             data: n.data().clone(),
             ledges: cv(g.get_node(n.node_id), Dir::Left),
             redges: cv(g.get_node(n.node_id), Dir::Right),
+            ledges_acc: n.l_edges().into_iter().map(|(t, s, f)| (t, side_of(s), f)).collect(),
+            redges_acc: n.r_edges().into_iter().map(|(t, s, f)| (t, side_of(s), f)).collect(),
         });
     }
     GraphV { k: K::k(), stranded: g.base.stranded, nodes }
@@ -218,6 +223,8 @@ macro_rules! with_kmer {
     }};
 }
 pub const ALL_K: [usize; 17] = [4, 5, 6, 8, 10, 12, 14, 15, 16, 20, 24, 30, 31, 32, 40, 48, 64];
+/// the wide types for which the costlier quick plans (C04, C05, C09) run the lifted families; the thorough tier uses all of BIG_K
+pub const LIFT_QUICK_K: [usize; 5] = [8, 15, 16, 40, 64];
 pub const BIG_K: [usize; 14] = [8, 10, 12, 14, 15, 16, 20, 24, 30, 31, 32, 40, 48, 64];
 
 /// Iterator-contract laws for an iterator that can be re-created: every std adaptor that an implementation may
@@ -261,6 +268,42 @@ pub fn iterator_laws_by<I: Iterator, T: PartialEq + std::fmt::Debug>(what: &str,
         let want: Vec<&T> = expected.iter().step_by(s).collect();
         if st.iter().collect::<Vec<&T>>() != want {
             return Some(format!("{}: step_by({}) yields {:?}", what, s, st));
+        }
+    }
+    // the consuming methods an iterator may specialise must see what is LEFT, not the whole sequence:
+    // after m items have been taken (by next(), or by by_ref().take(m)): count / last / fold
+    // (size_hint after partial consumption is not judged: no property promises it)
+    for &m in &ns {
+        let rem = len.saturating_sub(m);
+        let advance = |via_take: bool| -> I {
+            let mut it = mk();
+            if via_take {
+                let _ = it.by_ref().take(m).count();
+            } else {
+                for _ in 0..m {
+                    it.next();
+                }
+            }
+            it
+        };
+        for via_take in [false, true] {
+            let how = if via_take { "by_ref().take(m)" } else { "m x next()" };
+            let c = advance(via_take).count();
+            if c != rem {
+                return Some(format!("{}: after {} with m={}: count() = {}, but {} items are left", what, how, m, c, rem));
+            }
+            let l = advance(via_take).last().map(conv);
+            let want_last = if rem > 0 { expected.last() } else { None };
+            if l.as_ref() != want_last {
+                return Some(format!("{}: after {} with m={}: last() = {:?}, want {:?}", what, how, m, l, want_last));
+            }
+            let folded: Vec<T> = advance(via_take).fold(vec![], |mut acc, x| {
+                acc.push(conv(x));
+                acc
+            });
+            if folded[..] != expected[m.min(len)..] {
+                return Some(format!("{}: after {} with m={}: fold() visits {} items, {} are left", what, how, m, folded.len(), rem));
+            }
         }
     }
     if mk().count() != len {
